@@ -2,7 +2,7 @@
    constructors are per-field updates.  The domain is finite (ATTR_COUNT = 4032 in this build, the value the
    compiler computed): both directions are decided by an exhaustive vm_compute sweep, lifted to a forall. *)
 From Coq Require Import ZArith Bool List Lia.
-From Verif Require Import Gen_consts Attr.
+From Verif Require Import Gen_consts Gen_qos Attr.
 Import ListNotations.
 Local Open Scope Z_scope.
 
